@@ -259,9 +259,42 @@ class NSJ:
         return run_body(self)
 
 
-TYPES = {c.__name__: c for c in (NA, NB, NC, ND, NN, NJ, NF, NP, NAX, NS, NSJ, NSP, NM, NK, NT, NE, NZ)}
-MAX_PARALLEL = {'NSP': None, 'NZ': None, 'NE': None, 'NT': None, 'NM': 2, 'NK': 1, 'NS': None, 'NSJ': None, 'NA': None, 'NB': 1, 'NC': 2, 'ND': 3, 'NN': None, 'NJ': None, 'NF': None, 'NP': None, 'NAX': None}
-UNCACHED = {'NN', 'NM'}
+@labtech.task(cache=None)
+class NR:
+    """post_init rewrites a string parameter into canonical form: instances built from differently spelled
+    arguments (' X ', 'x') are EQUAL tasks.  Not cached: the cache_key is computed before post_init, so such
+    twins would have different keys - that quirk is left out of this type's business."""
+    name: str
+    one: Any = None
+    many: Any = ()
+    named: Any = None
+    p: Any = None
+
+    def post_init(self):
+        if isinstance(self.p, str):
+            object.__setattr__(self, 'p', self.p.strip().lower())
+
+    def run(self):
+        return run_body(self)
+
+
+@labtech.task
+class N__U_:
+    """A (legal) class name with a double underscore inside and an underscore at the end: the separators labtech
+    itself uses when it builds cache keys (<format>__<type name>__<hash>)."""
+    name: str
+    one: Any = None
+    many: Any = ()
+    named: Any = None
+    p: Any = None
+
+    def run(self):
+        return run_body(self)
+
+
+TYPES = {c.__name__: c for c in (NA, NB, NC, ND, NN, NJ, NF, NP, NAX, NS, NSJ, NSP, NM, NK, NT, NE, NZ, N__U_, NR)}
+MAX_PARALLEL = {'NR': None, 'N__U_': None, 'NSP': None, 'NZ': None, 'NE': None, 'NT': None, 'NM': 2, 'NK': 1, 'NS': None, 'NSJ': None, 'NA': None, 'NB': 1, 'NC': 2, 'ND': 3, 'NN': None, 'NJ': None, 'NF': None, 'NP': None, 'NAX': None}
+UNCACHED = {'NN', 'NM', 'NR'}
 
 
 def filter_ctx(tname, name, ctx):
@@ -324,6 +357,21 @@ class Evaluate:
     class Mode(Enum):
         FAST = 1
         FULL = 'full'
+
+
+class KeyE(str, Enum):
+    """String-valued enum members used as dict KEYS: they are strings (isinstance str, equal and hash-equal to the
+    plain string), their str() is not the string."""
+    A = 'a'
+    B = 'b'
+    K = 'k'
+    EMPTY = ''
+    E = '\u00e9'
+    NAME = 'name'
+    IS_TASK = 'is_task'
+    XY = 'x.y'
+    ZERO = '0'
+    P = 'p'
 
 
 class SubFloat(float):
@@ -424,6 +472,16 @@ class VU:
 @labtech.task
 class VÉ:
     """A module-level task type whose (valid Python) name is not ASCII: it ends up in cache keys and directory names."""
+    p: Any = None
+    q: Any = None
+
+    def run(self):
+        return _val_run(self)
+
+
+@labtech.task
+class V__W_:
+    """Double underscore inside and underscore at the end of the class name (see N__U_)."""
     p: Any = None
     q: Any = None
 
